@@ -286,6 +286,68 @@ def lifetime_sweep(mode):
     return out
 
 
+def collection_boundaries():
+    """deterministic boundary inputs of the collection operations, run on BOTH real backends side by side (mode "both"):
+    SetList(k, []) / SetList(k, [one]) on an existing list and after appends, RemoveFromList of the last element followed by
+    AppendToList, DeleteHash of the last field followed by SetHash, empty field name / empty value, IncrBy(0) and a counter
+    back at 0 — each after priors with lifetime 0 / SHORT / LONG, with reads before and after clock steps."""
+    T = {"op": "tick", "d": TICK}
+    out = []
+
+    def add(ops):
+        out.append({"mode": "both", "ops": ops, "scale": 1, "tol": MARGIN, "boundary": True})
+    lreads = [{"op": "getlist", "k": "l0"}, {"op": "exists", "k": "l0"}]
+    lpriors = [[{"op": "setlist", "k": "l0", "v": ["a", "b"], "ttl": t}] for t in (0, SHORT, LONG)] + \
+              [[{"op": "append", "k": "l0", "v": "a"}, {"op": "append", "k": "l0", "v": "b"}]] + \
+              [[{"op": "setlist", "k": "l0", "v": ["a"], "ttl": t}] for t in (0, SHORT)] + \
+              [[{"op": "append", "k": "l0", "v": "a"}, {"op": "setexp", "k": "l0", "ttl": SHORT}]]
+    lseconds = [[{"op": "setlist", "k": "l0", "v": [], "ttl": 0}], [{"op": "setlist", "k": "l0", "v": [], "ttl": SHORT}],
+                [{"op": "setlist", "k": "l0", "v": ["z"], "ttl": 0}], [{"op": "setlist", "k": "l0", "v": ["z"], "ttl": LONG}],
+                [{"op": "remove", "k": "l0", "v": "a"}], [{"op": "remove", "k": "l0", "v": "a"}, {"op": "remove", "k": "l0", "v": "b"}],
+                [{"op": "remove", "k": "l0", "v": "zz"}], [{"op": "append", "k": "l0", "v": ""}, {"op": "remove", "k": "l0", "v": ""}]]
+    for pr in lpriors:
+        for se in lseconds:
+            add(pr + se + lreads + [{"op": "append", "k": "l0", "v": "c"}] + lreads + [T] + lreads + [T, T] + lreads)
+    hreads = [{"op": "getallhash", "k": "h0"}, {"op": "gethash", "k": "h0", "f": "f"}, {"op": "gethash", "k": "h0", "f": "nope"},
+              {"op": "exists", "k": "h0"}]
+    hpriors = [[{"op": "sethash", "k": "h0", "f": "f", "v": "a"}],
+               [{"op": "sethash", "k": "h0", "f": "f", "v": "a"}, {"op": "setexp", "k": "h0", "ttl": SHORT}],
+               [{"op": "sethash", "k": "h0", "f": "f", "v": "a"}, {"op": "setexp", "k": "h0", "ttl": 0}],
+               [{"op": "sethash", "k": "h0", "f": "f", "v": "a"}, {"op": "sethash", "k": "h0", "f": "g", "v": "b"},
+                {"op": "setexp", "k": "h0", "ttl": SHORT}]]
+    hseconds = [[{"op": "delhash", "k": "h0", "f": "f"}], [{"op": "delhash", "k": "h0", "f": "f"}, {"op": "delhash", "k": "h0", "f": "g"}],
+                [{"op": "delhash", "k": "h0", "f": "nope"}], [{"op": "sethash", "k": "h0", "f": "", "v": ""}],
+                [{"op": "sethash", "k": "h0", "f": "f", "v": ""}], [{"op": "sethash", "k": "h0", "f": "", "v": "x"}, {"op": "delhash", "k": "h0", "f": ""}]]
+    for pr in hpriors:
+        for se in hseconds:
+            add(pr + se + hreads + [{"op": "gethash", "k": "h0", "f": ""}, {"op": "sethash", "k": "h0", "f": "f", "v": "z"}] + hreads
+                + [T] + hreads + [T, T] + hreads)
+    creads = [{"op": "get", "k": "c0"}, {"op": "exists", "k": "c0"}]
+    for pr in ([], [{"op": "incrby", "k": "c0", "n": 5}, {"op": "incrby", "k": "c0", "n": -5}],
+               [{"op": "incrby", "k": "c0", "n": 5}, {"op": "setexp", "k": "c0", "ttl": SHORT}],
+               [{"op": "incrby", "k": "c0", "n": 5}, {"op": "incrby", "k": "c0", "n": -5}, {"op": "setexp", "k": "c0", "ttl": SHORT}]):
+        for n in (0, 1):
+            add(pr + [{"op": "incrby", "k": "c0", "n": n}] + creads + [T] + creads + [{"op": "incrby", "k": "c0", "n": 0}] + creads)
+    return out
+
+
+def sweep_cases():
+    """a write on an expired key issued while a CleanupExpired sweep (explicit call / StartCleanup ticker) holds the mutex"""
+    k = "k0"
+    writes = [([{"op": "set", "k": k, "v": "fresh", "ttl": 0}], [{"op": "get", "k": k}, {"op": "exists", "k": k}, {"op": "getexp", "k": k}]),
+              ([{"op": "setnx", "k": k, "v": "fresh", "ttl": 0}], [{"op": "get", "k": k}, {"op": "exists", "k": k}]),
+              ([{"op": "cas", "k": k, "old": None, "v": "fresh", "ttl": 0}], [{"op": "get", "k": k}]),
+              ([{"op": "append", "k": k, "v": "z"}], [{"op": "getlist", "k": k}, {"op": "exists", "k": k}]),
+              ([{"op": "sethash", "k": k, "f": "f", "v": "z"}], [{"op": "getallhash", "k": k}]),
+              ([{"op": "incrby", "k": k, "n": 3}], [{"op": "get", "k": k}])]
+    out = []
+    for i, (w, rd) in enumerate(writes):
+        out.append({"mode": "sweep", "ops": w + rd, "fill": 100000, "ticker": False})
+        if i < 3:
+            out.append({"mode": "sweep", "ops": w + rd, "fill": 100000, "ticker": True})
+    return out
+
+
 def exhaustive_small(rng, depth):
     """all histories of the given length over a reduced one-key alphabet (thorough tier)"""
     k = "k0"
@@ -491,17 +553,23 @@ def run(ctx, only_cases=None):
         cases = load_corpus()
         cases += [{"mode": "mem", "ops": ops, "scale": 1, "tol": MARGIN, "witness": f} for f, ops in WITNESSES]
         n_mem, n_focus, n_redis, n_conc = (4000, 5000, 8000, 3000) if thorough else (400, 600, 900, 300)
-        cases += lifetime_sweep("mem") + lifetime_sweep("redis")
+        cases += [dict(c, mode="both", scale=1, tol=MARGIN) for c in lifetime_sweep("redis")]
+        cases += collection_boundaries()
         cases += [gen_mem(rng) for _ in range(n_mem)]
         cases += [gen_focus(rng) for _ in range(n_focus)]
         if thorough:
             cases += exhaustive_small(rng, 3)
         cases += [gen_redis(rng) for _ in range(n_redis // 2)]
-        cases += [gen_focus(rng, "redis") for _ in range(n_redis - n_redis // 2)]
+        for i in range(n_redis - n_redis // 2):
+            c = gen_focus(rng, "redis")
+            if i % 3 == 0:      # every third typed history runs on both real backends side by side
+                c = dict(c, mode="both", scale=1, tol=MARGIN)
+            cases.append(c)
         cas_ok = flags["v_cas_zero_guard"] and flags["v_cas_ttl0_never"]
         cases += [gen_conc(rng, race_ok is True, cas_ok) for _ in range(n_conc)]
-    timed = [c for c in cases if c["mode"] != "conc"]
-    conc = [c for c in cases if c["mode"] == "conc"]
+        cases += sweep_cases()
+    timed = [c for c in cases if c["mode"] in ("mem", "redis", "both")]
+    conc = [c for c in cases if c["mode"] in ("conc", "sweep")]
     env = {"VERIF_C13_PAR": "64" if thorough else "40"}
     outs = vlib.run_harness(binary, timed, timeout=1500, env=env) if timed else []
     try:
@@ -517,13 +585,13 @@ def run(ctx, only_cases=None):
     ambiguous = 0
     judged = []          # (case, out)
     for c, o in zip(timed, outs):
-        if c["mode"] == "mem" and o["late_ms"] > MARGIN:
+        if c["mode"] in ("mem", "both") and o["late_ms"] > MARGIN:
             ambiguous += 1
             continue
         judged.append((c, o))
     terms, tags = [], []
     for idx, (c, o) in enumerate(judged):
-        if c["mode"] == "mem":
+        if c["mode"] in ("mem", "both"):
             terms.append(case_value(0, flags, c["tol"], c["ops"], o["obs"]))
             tags.append(("impl", idx))
             terms.append(case_value(1, flags, c["tol"], c["ops"], o["ref"]))
@@ -531,8 +599,17 @@ def run(ctx, only_cases=None):
         else:
             terms.append(case_value(1, flags, c["tol"], c["ops"], o["ref_raw"]))
             tags.append(("ref", idx))
+        if c["mode"] in ("redis", "both"):   # the Redis-flavoured reference == Spec with "empty list/hash = absent" (mode 2)
+            terms.append(case_value(2, flags, 10 ** 12, c["ops"], o["rref_raw"]))
+            tags.append(("ref", idx))
     lin_cases = []
     for idx, (c, o) in enumerate(zip(conc, couts)):
+        if c["mode"] == "sweep":
+            if o["prop_ok"]:   # either order of {CleanupExpired || write} is the same Spec history up to commuting
+                ops = [{"op": "set", "k": c["ops"][0]["k"], "v": "old", "ttl": SHORT}, {"op": "tick", "d": TICK}, {"op": "cleanup"}] + c["ops"]
+                terms.append(case_value(1, flags, 10 ** 12, ops, [["ok"], ["ok"], ["ok"]] + o["obs"]))
+                tags.append(("lin", idx))
+            continue
         if o["prop_ok"]:
             ops = [c["threads"][t][i] for t, i in o["lin"]]
             obs = [o["tobs"][t][i] for t, i in o["lin"]]
@@ -584,8 +661,8 @@ def run(ctx, only_cases=None):
     for c, o in zip(conc, couts):
         if not o["prop_ok"]:
             nfail += 1
-            ctx.violation(o["prop_key"], o["prop_msg"] + "  [threads: %s]" % json.dumps(c["threads"])[:600],
-                          {"case": c, "observed": o["tobs"]})
+            ctx.violation(o["prop_key"], o["prop_msg"] + "  [%s]" % json.dumps(c.get("threads") or c["ops"])[:600],
+                          {"case": c, "observed": o.get("tobs") or o.get("obs")})
     # ---- (ii) model vs implementation / reference ----
     for idx in sorted(bad_impl)[:3]:
         c, o = judged[idx]
@@ -600,7 +677,8 @@ def run(ctx, only_cases=None):
                       {"case": c, "reference": o.get("ref_raw") or o["ref"]}, found_input=False)
     for idx in sorted(bad_lin)[:3]:
         ctx.violation("spec-mismatch-lin", "Corr/C13.check (mode 1): the Coq Spec rejects a linearization the harness accepted",
-                      {"case": conc[idx], "observed": couts[idx]["tobs"], "lin": couts[idx]["lin"]}, found_input=False)
+                      {"case": conc[idx], "observed": couts[idx].get("tobs") or couts[idx].get("obs"), "lin": couts[idx].get("lin")},
+                      found_input=False)
 
     # ---- cross-check of the extraction inside Coq ----
     try:
@@ -616,7 +694,7 @@ def run(ctx, only_cases=None):
 
     # ---- coverage ----
     def nontrivial(c, o):
-        if c["mode"] == "conc":
+        if c["mode"] in ("conc", "sweep"):
             return o.get("overlap", 0) > 0
         kinds = {x["op"] for x in c["ops"]}
         answers = {json.dumps(x[:1]) for x in o["obs"]}
@@ -643,7 +721,8 @@ def run(ctx, only_cases=None):
         if 0 <= i < len(timed):
             samples.append({"case": timed[i], "observed": outs[i]["obs"]})
     if conc:
-        samples.append({"case": conc[0], "observed": couts[0]["tobs"], "linearization": couts[0].get("lin")})
+        samples.append({"case": conc[0], "observed": couts[0].get("tobs") or couts[0].get("obs"), "linearization": couts[0].get("lin")})
+        samples.append({"case": conc[-1], "observed": couts[-1].get("tobs") or couts[-1].get("obs")})
     ctx.coverage.update({
         "evaluations": len(timed) + len(conc), "distinct_nontrivial": len(nt),
         "rule": "histories generated from VERIF_SEED by one PRNG (+ corpus and the 5 refuting histories first); distinct = distinct "
@@ -654,7 +733,14 @@ def run(ctx, only_cases=None):
         "samples": samples,
         "input_distribution": {
             "mem_histories": sum(1 for c in timed if c["mode"] == "mem"), "redis_histories": sum(1 for c in timed if c["mode"] == "redis"),
-            "concurrent_cases": len(conc), "concurrent_cases_with_overlap": sum(1 for o in couts if o.get("overlap", 0) > 0),
+            "both_backends_side_by_side": sum(1 for c in timed if c["mode"] == "both"),
+            "calls_compared_between_the_two_real_backends": sum(o.get("cross", 0) for o in outs),
+            "collection_boundary_histories": sum(1 for c in timed if c.get("boundary")),
+            "histories_in_which_a_collection_becomes_empty": sum(1 for c, o in zip(timed, outs) if o.get("shape_end", -1) >= 0),
+            "concurrent_cases": sum(1 for c in conc if c["mode"] == "conc"),
+            "cleanup_sweep_cases": sum(1 for c in conc if c["mode"] == "sweep"),
+            "cleanup_sweep_cases_write_issued_while_sweep_held_the_mutex": sum(1 for c, o in zip(conc, couts) if c["mode"] == "sweep" and o.get("overlap")),
+            "concurrent_cases_with_overlap": sum(1 for c, o in zip(conc, couts) if c["mode"] == "conc" and o.get("overlap", 0) > 0),
             "operations": opcount, "lifetimes_ms": ttlcount, "tick_ms": TICK,
             "reads_answered_not_found_by_reference": expired_reads,
             "malformed_stream": "type-confused histories (list/hash/counter operations on keys of another type, nil and empty values, "
